@@ -120,8 +120,14 @@ def run(ctx, res):
     res.discharged += agg["trace_kinds"].get("return", 0)
     res.inventory["exec_traces"] = agg["trace_kinds"]
     res.floor("traces of Cpu::exec", agg["traces"], 1500)
+    cost_sites = dict(agg.get("cost_sites", {}))
     for name, fn in (("fetch", isa_extra.check_fetch), ("interrupt entry", isa_extra.check_interrupt)):
         r = fn(facts)
+        for k_, v_ in r.get("cost_sites", {}).items():
+            d_ = cost_sites.setdefault(k_, [0, 0, None, v_[3]])
+            d_[0] += v_[0]
+            d_[1] += v_[1]
+            d_[2] = d_[2] if d_[2] is not None else v_[2]
         for f in r["findings"]:
             if "C15" in f["props"]:
                 panics.append((name, f["key"], f["msg"], f["witness"]))
@@ -243,6 +249,7 @@ def run(ctx, res):
     k_csa = facts.body("cpu::Cpu::calc_state_with_addr")["key"]
     st_t = facts.types[facts.type_by_path["cpu::StateType"]]
     ncost = 0
+    nsem = 0
     for k in reach:
         for bl in facts.bodies[k]["blocks"]:
             t = bl["term"]
@@ -265,9 +272,28 @@ def run(ctx, res):
                     kname = a1["v"]["vname"]
                 all_const = bool(croots) and all(r[0] == "const" and str(r[1]).isdigit() for r in croots)
                 okk = all_const and len(cnt) >= 1 and kname is not None and (kname == "N" or max(cnt) * isamod.MAX_COST_MULT <= 255)
-                res.ob(okk)
-                if not okk:
-                    res.finding("cost-context|%s|line%s" % (k.split("::")[-1], t["ln"]), "%s passes (kind %s, count %r) to the cost function: the count is not a constant whose charge fits 8 bits" % (k, kname, cnt))
+                fn_ = k.split("::")[-1]
+                if okk:
+                    res.ob(True)
+                    continue
+                # not a literal at the call site (helper parameter, table, selected by a decode bit): decided semantically - in every
+                # calling context met by the instruction-level / interrupt-entry analyses the count value must keep the u8 charge in range
+                sem = cost_sites.get("%s|%s|%s" % (k, t["ln"], (t["callee"]["path"] or "").split("::")[-1]))
+                nsem += 1
+                if all_const and len(cnt) >= 1 and kname is not None:
+                    res.ob(False)
+                    res.finding("cost-context|%s|%s" % (fn_, kname), "%s passes the literal count %d (kind %s) to the cost function: count x %d does not fit the 8-bit charge (overflow panic / wrapped charge)"
+                                % (k, max(cnt), kname, isamod.MAX_COST_MULT))
+                elif sem is None or sem[0] == 0:
+                    res.ob(False)
+                    res.errors.append("cost context of %s (kind %s): the count is not a literal and no analysed calling context reaches the call - not decided" % (fn_, kname))
+                elif sem[1]:
+                    res.ob(False)
+                    res.finding("cost-context|%s|%s" % (fn_, sem[3]), "%s can pass count %s (kind %s) to the cost function: count x %d does not fit the 8-bit charge (overflow panic / wrapped charge); %d of %d analysed calling contexts"
+                                % (k, sem[2], sem[3], isamod.MAX_COST_MULT, sem[1], sem[0]))
+                else:
+                    res.ob(True)
+    res.inventory["cost_call_sites_decided_in_context"] = nsem
     res.inventory["cost_call_sites"] = ncost
     res.floor("cost-function call sites", ncost, 240)
     # (d) re-entrancy: while a RefCell<T> is borrowed, nothing that runs under the borrow (the T methods called by the
